@@ -17,6 +17,7 @@ GNext == \/ /\ kq # <<>> /\ Handle /\ UNCHANGED hist                            
             /\ \/ \E p \in Paths : \/ Add(p) /\ Lbl(<<"add", p>>)
                                    \/ Remove(p) /\ Lbl(<<"remove", p>>)
                                    \/ Unlink(p) /\ Lbl(<<"unlink", p>>)
+                                   \/ MoveAway(p) /\ Lbl(<<"moveaway", p>>)
                                    \/ Create(p) /\ Lbl(<<"create", p>>)
                \/ Retarget /\ Lbl(<<"retarget", ltgt'>>)
 GSpec == GInit /\ [][GNext]_gvars
